@@ -90,7 +90,7 @@ class Construction:
       # unproperly splitten, rejoin
       data = "\t".join(data)
     if isinstance(data, str):
-      match = re.match(r"^#(\s*)(.*)$", data)
+      match = re.match(r"^#(\s*)(.*)\Z", data)
       if match is None:
         raise gfapy.FormatError("Comment lines must begin with #\n"+
             "Line: {}".format(data))
